@@ -13,6 +13,7 @@ pub mod life;
 pub mod c12;
 pub mod c13;
 pub mod c17;
+pub mod c18;
 
 pub fn threads() -> usize {
     std::env::var("VERIF_THREADS")
@@ -41,6 +42,7 @@ pub fn plan(property: &str, tier: &str) -> Option<Plan> {
         "C12" => Some(c12::plan(quick)),
         "C13" => Some(c13::plan(quick)),
         "C17" => Some(c17::plan(quick)),
+        "C18" => Some(c18::plan(quick)),
         "C01" | "C07" | "C08" | "C09" | "C10" | "C15" | "C16" => Some(chat::plan(property, quick)),
         _ => None,
     }
@@ -70,6 +72,7 @@ pub fn replay_fun(property: &str, scenario: &str, input: &serde_json::Value) -> 
     match property {
         "C14" => c14::replay_fun(scenario, input),
         "C13" => c13::replay_fun(scenario, input),
+        "C18" => c18::replay_fun(input),
         "C07" | "C08" | "C16" => chat::replay_fun(property, scenario, input),
         _ => vec![],
     }
